@@ -23,7 +23,7 @@ BUDGET_S = {"quick": 80, "thorough": 1500}
 
 
 def gen_cases(seed, tier):
-    return [c for c in sched.gen_cases(ID, seed, tier) if not c.get("force")]
+    return [c for c in sched.gen_cases(ID, seed, tier) if not c.get("force") and c.get("kind") != "changed_resume"]
 
 
 def run_case(case, workdir):
